@@ -1,5 +1,6 @@
 import Ruint.Model.Shift
 import Ruint.Gen.WordsUint
+import Ruint.Gen.WordsShiftOps
 /-! Driver for C05: evaluates the model (`Ruint.Shift.*` on limb lists) and the spec (ℕ arithmetic).
 
 Case lines: `op bits value amount` — `value` hex `< 2^bits`; `amount` hex: a `usize` (methods), the
@@ -56,9 +57,10 @@ def handle (args : List String) (_impl : String) : String × String :=
     let x := parseHex as
     let s := parseHex ss
     if startsWith op "shlU_" then
-      (out (shlUint bits a (u bits ss)), toHex (sShl bits x s))
+      -- `Shl<Uint>` GENERATED from src/bits.rs (`Props/C05.gen_shift_by_uint_eq`)
+      (out (Ruint.Gen.uint_shl_uint (nlimbs bits + 1) bits (nlimbs bits) a (u bits ss)), toHex (sShl bits x s))
     else if startsWith op "shrU_" then
-      (out (shrUint bits a (u bits ss)), toHex (sShr bits x s))
+      (out (Ruint.Gen.uint_shr_uint (nlimbs bits + 1) bits (nlimbs bits) a (u bits ss)), toHex (sShr bits x s))
     else if startsWith op "shl_" then
       (out (shlInt bits a s), toHex (sShl bits x s))
     else if startsWith op "shr_" then
